@@ -777,6 +777,14 @@ class SymEval(Flow):
                     s0, e0 = Aff.atom(fresh('mstart')), Aff.atom(fresh('mend'))
                     st.facts = st.facts.add(s0, e0 - s0, n - e0)
                     val = Match(subj, s0, e0)
+                    fc = getattr(self, '_for_cands', None)
+                    if fc is not None and fc[0] == id(s):
+                        if not hasattr(self, '_cur_mend'):
+                            self._cur_mend = {}
+                        self._cur_mend[id(s)] = e0
+                        for c in fc[1]:
+                            if c[0] == 'lemstart' and isinstance(st.vars.get(c[1]), Int):
+                                st.facts = st.facts.add(s0 - st.vars[c[1]].a)
             elif getattr(it.func, 'id', '') == 'range' and len(it.args) in (1, 2) \
                     and isinstance(s.target, ast.Name):
                 ra = [self.as_int(self.ev(x, st), st) for x in it.args]
@@ -884,6 +892,14 @@ class SymEval(Flow):
             for b in sorted(seqvars):
                 if entry.facts.prove_eq(entry.vars[tk].a, self.length(entry.vars[b], entry)):
                     cands.append(('eqint', tk, b))
+        if isinstance(s, ast.For) and isinstance(s.iter, ast.Call):
+            rr = self.model.resolve_call(s.iter)
+            if rr and rr[0] == 'ext' and rr[1] == 're.finditer':
+                # matches are disjoint and ordered: the next match starts at or behind the end of this one,
+                # so a variable that never exceeds the end of the current match is <= the start of the next
+                for v in intvars:
+                    if entry.facts.prove_ge0(-entry.vars[v].a):
+                        cands.append(('lemstart', v))
         for k in entry.vars:
             if k in assigned or k in akeys:
                 cands.append(('same', k))
@@ -907,7 +923,9 @@ class SymEval(Flow):
             if isinstance(s, ast.While):
                 body_in = self.cond(s.test, head.copy(), True)
             else:
+                self._for_cands = (id(s), cands)
                 body_in = self.bind_for(s, head.copy())
+                self._for_cands = None
             outs = self.paths(s.body, body_in)
             self.loop_stack.pop()
             self.loop_heads[id(s)] = head
@@ -976,6 +994,8 @@ class SymEval(Flow):
             return '%s unchanged at the back edge' % c[1]
         if c[0] == 'mono':
             return '%s never decreases' % c[1]
+        if c[0] == 'lemstart':
+            return '%s <= start of the current match' % c[1]
         return repr(c)
 
     def havoc(self, entry, assigned, akeys, cands, loop):
@@ -1037,6 +1057,10 @@ class SymEval(Flow):
         if c[0] == 'ge0':
             v = st.vars.get(c[1])
             return isinstance(v, Int) and st.facts.prove_ge0(v.a)
+        if c[0] == 'lemstart':
+            v = st.vars.get(c[1])
+            e0 = getattr(self, '_cur_mend', {}).get(self._loop_ids[-1]) if self._loop_ids else None
+            return isinstance(v, Int) and e0 is not None and st.facts.prove_ge0(e0 - v.a)
         if c[0] == 'mono':
             v = st.vars.get(c[1])
             h = self._heads_of.get(self._loop_ids[-1], {}).get(c[1]) if self._loop_ids else None
